@@ -426,7 +426,13 @@ func (eng *Engine) localEffects(ins ssa.Instruction, s *sorts, res *Effects, wal
 		}
 	case ssa.CallInstruction:
 		if _, isGo := ins.(*ssa.Go); isGo {
-			return // effects of a spawned goroutine are not effects of the spawner (thread-modular)
+			// effects of a spawned goroutine are not effects of the spawner (thread-modular); the spawn itself is an event
+			for _, ev := range eng.eventsFor(x.Common()) {
+				if !ev.Ret {
+					addEventVars(ev.Name, res.Vars)
+				}
+			}
+			return
 		}
 		for _, ev := range eng.eventsFor(x.Common()) {
 			addEventVars(ev.Name, res.Vars)
@@ -564,6 +570,9 @@ func (eng *Engine) callEffects(c *ssa.CallCommon, s *sorts, res *Effects, walk f
 		}
 	}
 	if eng.libraryFuncField(c.Value) != "" {
+		return
+	}
+	if eng.libraryFuncValue(c.Value, 0) {
 		return
 	}
 	if targets, _ := eng.fieldFuncTargets(c.Value); len(targets) > 0 {
@@ -806,6 +815,11 @@ func (eng *Engine) EventEffects(f *ssa.Function) (map[string]bool, bool) {
 					continue
 				}
 				if _, isGo := ins.(*ssa.Go); isGo {
+					for _, ev := range eng.eventsFor(ci.Common()) {
+						if !ev.Ret {
+							res.evs[ev.Name] = true
+						}
+					}
 					continue
 				}
 				c := ci.Common()
@@ -847,7 +861,7 @@ func (eng *Engine) EventEffects(f *ssa.Function) (map[string]bool, bool) {
 					if p, ok := c.Value.(*ssa.Parameter); ok && eng.isCallOnlyParam(p) {
 						continue // attributed to every call site of the enclosing function (argClosures)
 					}
-					if eng.funcFieldContract(c.Value) != nil || eng.libraryFuncField(c.Value) != "" || eng.extFuncCall(c) {
+					if eng.funcFieldContract(c.Value) != nil || eng.libraryFuncField(c.Value) != "" || eng.extFuncCall(c) || eng.libraryFuncValue(c.Value, 0) {
 						continue
 					}
 					if targets, _ := eng.fieldFuncTargets(c.Value); len(targets) > 0 {
@@ -1090,6 +1104,60 @@ func ownSlice(v ssa.Value, seen map[ssa.Value]bool) bool {
 			}
 		}
 		return true
+	}
+	return false
+}
+
+// libraryFuncValue: the function value is the result of a call into a library (e.g. the CancelFunc returned by
+// context.WithDeadline), directly or through a local variable that only ever holds such results. Library code
+// holds no reference to module state other than what it was given, so calling the value has no effect on it.
+func (eng *Engine) libraryFuncValue(v ssa.Value, depth int) bool {
+	if depth > 4 {
+		return false
+	}
+	if _, isFn := v.Type().Underlying().(*types.Signature); !isFn {
+		return false
+	}
+	switch x := v.(type) {
+	case *ssa.Extract:
+		if call, ok := x.Tuple.(*ssa.Call); ok {
+			if fn := call.Common().StaticCallee(); fn != nil && !eng.InModule(fn) {
+				return true
+			}
+		}
+	case *ssa.Call:
+		if fn := x.Common().StaticCallee(); fn != nil && !eng.InModule(fn) {
+			return true
+		}
+	case *ssa.Phi:
+		for _, e := range x.Edges {
+			if !eng.libraryFuncValue(e, depth+1) {
+				return false
+			}
+		}
+		return len(x.Edges) > 0
+	case *ssa.UnOp:
+		if x.Op != token.MUL {
+			return false
+		}
+		al, ok := x.X.(*ssa.Alloc)
+		if !ok || al.Referrers() == nil {
+			return false
+		}
+		stores := 0
+		for _, r := range *al.Referrers() {
+			switch u := r.(type) {
+			case *ssa.UnOp, *ssa.DebugRef:
+			case *ssa.Store:
+				if u.Addr != al || !eng.libraryFuncValue(u.Val, depth+1) {
+					return false
+				}
+				stores++
+			default:
+				return false
+			}
+		}
+		return stores > 0
 	}
 	return false
 }
